@@ -134,7 +134,8 @@ namespace ST
         string_stream &operator<<(int num)
         {
             ST::uint_formatter<unsigned int> formatter;
-            formatter.format(std::abs(num), 10, false);
+            formatter.format(num < 0 ? 0 - static_cast<unsigned int>(num)
+                                     :     static_cast<unsigned int>(num), 10, false);
             if (num < 0)
                 append_char('-');
             return append(formatter.text(), formatter.size());
@@ -150,7 +151,8 @@ namespace ST
         string_stream &operator<<(long num)
         {
             ST::uint_formatter<unsigned long> formatter;
-            formatter.format(std::abs(num), 10, false);
+            formatter.format(num < 0 ? 0 - static_cast<unsigned long>(num)
+                                     :     static_cast<unsigned long>(num), 10, false);
             if (num < 0)
                 append_char('-');
             return append(formatter.text(), formatter.size());
@@ -166,7 +168,8 @@ namespace ST
         string_stream &operator<<(long long num)
         {
             ST::uint_formatter<unsigned long long> formatter;
-            formatter.format(std::abs(num), 10, false);
+            formatter.format(num < 0 ? 0 - static_cast<unsigned long long>(num)
+                                     :     static_cast<unsigned long long>(num), 10, false);
             if (num < 0)
                 append_char('-');
             return append(formatter.text(), formatter.size());
